@@ -103,3 +103,16 @@ Theorem C10_isolation_numbering_only : forall c d evs,
   log (run (init (c + d)) evs) = log (run (init c) evs) /\ up (run (init (c + d)) evs) = up (run (init c) evs).
 Proof. exact numbering_only. Qed.
 Print Assumptions C10_isolation_numbering_only.
+
+(* "every other outstanding or later call is unaffected", reference numbers: the sender numbers every OPEN it writes
+   (and uses those numbers in `reference` sequences); a receiver that counts every OPEN -- including the ones it is
+   discarding, for whatever reason and from whatever token on (`flags` is an arbitrary choice of the tokens at which one
+   of its unslicers raises Violation) -- gives every OPEN the sender's number, for every sequence of slicer behaviours.
+   That handleData advances objectCounter for discarded OPENs too is read from the source. *)
+Theorem C10_open_numbers_in_step : forall c evs flags,
+  let s := run (init c) evs in
+  List.length flags = List.length (out s) ->
+  let r := crun (cinit c) (combine (out s) flags) in
+  cagree r = true /\ ccount r = cnt s.
+Proof. exact open_numbers_in_step. Qed.
+Print Assumptions C10_open_numbers_in_step.
